@@ -268,3 +268,68 @@ pub fn run_on(
         swept: c1.swept - c0.swept,
     }
 }
+
+/// Incremental driver for interleaving several interpreters in one thread.
+pub struct Stepper {
+    pub interp: Interpreter,
+    pub log: Rc<RefCell<Vec<String>>>,
+    pub steps: u64,
+    pub done: Option<String>,
+    /// sequence of terminal/non-Continue step results seen so far
+    pub trace: Vec<String>,
+    max_steps: u64,
+}
+
+impl Stepper {
+    pub fn start(source: &str, gc_threshold: Option<usize>, max_steps: u64) -> Stepper {
+        let log = Rc::new(RefCell::new(Vec::new()));
+        let mut interp = new_interp(&log);
+        if let Some(t) = gc_threshold {
+            interp.set_gc_threshold(t);
+        }
+        let first = interp.prepare(source, None);
+        let mut s = Stepper { interp, log, steps: 0, done: None, trace: vec![], max_steps };
+        s.absorb(first);
+        s
+    }
+
+    fn absorb(&mut self, r: Result<StepResult, JsError>) {
+        match r {
+            Ok(StepResult::Continue) => {}
+            Ok(StepResult::Complete(v)) => {
+                self.done = Some(format!("value|{}", show_value(v.value())));
+            }
+            Ok(StepResult::Done) => self.done = Some("done".into()),
+            Ok(StepResult::Suspended { pending, cancelled }) => {
+                self.done = Some(format!("suspended|{}|{}", pending.len(), cancelled.len()));
+            }
+            Ok(StepResult::NeedImports(reqs)) => {
+                self.done = Some(format!("need-imports|{}", reqs.len()));
+            }
+            Err(e) => {
+                let (c, _) = error_class(&e);
+                self.done = Some(format!("error|{}", c));
+            }
+        }
+    }
+
+    /// Execute one step; returns true while the program is still running.
+    pub fn step(&mut self) -> bool {
+        if self.done.is_some() {
+            return false;
+        }
+        if self.steps >= self.max_steps {
+            self.done = Some("limit".into());
+            return false;
+        }
+        self.steps += 1;
+        let r = self.interp.step();
+        self.absorb(r);
+        self.done.is_none()
+    }
+
+    /// Full trace string: terminal result, step count, console log.
+    pub fn trace_string(&self) -> String {
+        format!("{}#steps={}#log={}", self.done.clone().unwrap_or_default(), self.steps, self.log.borrow().join("\u{1f}"))
+    }
+}
